@@ -144,6 +144,9 @@ def run(repo, R):
         _wf = repo.func(_w)
         R.note_function(_wf.qualname)
         check_wrapper_inputs(repo, _wf, R)
+    R.rule("MPT", "every returned block of the overlap kernel is derived from the recursion; the only shortcut is the documented screening")
+    from .mpt import must_pass_through
+    must_pass_through(repo, R, repo.func(OVERLAP), allowed_shortcuts=("is_integral_screened",))
     R.rule("S0", "start of the recursion = sqrt(pi/p) exp(-mu (A-B)^2)")
     R.rule("Sa", "Obara-Saika step on the first index: M[i] = (P-A) M[i-1] + (i-1)/(2p) M[i-2]")
     R.rule("Sb", "Obara-Saika step on the second index with the coupling i/(2p) M[i-1, j-1]")
